@@ -84,6 +84,26 @@ CHECKS = {
          "1..4 sender threads with scripts of logs (with/without location) and warnings, a subset joined before collect(); every message whose send completed before collection must be returned, address-less logs keep per-thread order, per address exactly the last warning (recorded order in sequential mode, some thread's last in free-running mode) is kept, nothing fabricated or duplicated. Schedules are sampled (OS scheduler), not enumerated.",
          "Trusted: the history model; interleavings inside crossbeam-channel are not controlled (no loom/shuttle build of the channel available). Details: notes/C25.md.",
          "DESIGN.md §3 C25"),
+ "C02": ("exhaustive enumeration over 1-byte interval universes (members enumerated completely) + boundary grids and proptest tapes for 2/4/8/16-byte intervals; oracle = own membership predicate on the serialized result + refsem concrete semantics",
+         "For every operation the value analysis evaluates (all integer BinOps, UnOps, casts, subpiece, and the public add/sub/signed_mul/shift_left) and abstract inputs with widening hints/delays: every concrete result of members of the inputs must be a member of the abstract result (all member pairs when small, else endpoints/neighbours/samples), the result width must be right, and the result must be well-formed (start <= end, end on the stride, stride 0 iff singleton).",
+         "Trusted: dom.rs membership (own reading of the Interval documentation), refsem. Hints only in constructor-reachable positions. Details: notes/C02.md.",
+         "DESIGN.md §3 C02"),
+ "C04": ("exhaustive enumeration (every 1-byte interval x every 1-byte bound x 5 comparisons; all pairs of a reduced universe for intersect) + proptest tapes for wider values and DataDomain values; oracle = brute-force members/refsem comparisons",
+         "Ok(r): every member of the input satisfying the comparison is in r, r well-formed; Err: no member satisfies it. intersect: common members retained / Err only if none. DataDomain: the absolute part obeys the same rule, Err only without relative values and top flag; DataDomain::intersect only under the symbolic reading of identifiers. Precision (result subset of input) is measured, not asserted.",
+         "Trusted: membership/brute force in checks/c04.rs. Three open known-finding signatures (CRT overflow reported as empty intersection). Details: notes/C04.md.",
+         "DESIGN.md §3 C04"),
+ "C21": ("generated P-Code projects + generated ELF files driven through the real CLI binary (16 processes in parallel); validity predicates on exit status, stderr, JSON shape, known check names/versions, reported addresses and the recomputed canonical order (proptest tapes; shrinking capped)",
+         "Extractor-shaped projects (loops, direct/indirect calls, extern symbols with conventions, memory accesses into the ELF's segments, format strings, shared blocks, dangling targets) with matching ET_EXEC/ET_DYN files are analysed with default, partial and all-checks selections through `cwe_checker --pcode-raw`; the run must exit 0 with empty stderr and print a sorted JSON array of well-formed warnings. A 60 s per-process watchdog yields 'inconclusive', never a violation.",
+         "Trusted: cli_gen.rs writers (P-Code JSON, ELF); module names/versions are scanned from the repository sources at run time. Real Ghidra output may contain shapes not modelled. Details: notes/C21.md.",
+         "DESIGN.md §3 C21"),
+ "C22": ("generated multi-trigger inputs x check subsets/default/kernel-module inputs through the real CLI; oracle = set algebra on warning names relative to the all-checks run + source scan for --module-versions",
+         "A trigger pack makes many syntactic checks fire at once; names in the output must equal F∩S for --partial, F without CWE78 for the default run, the kernel-module subset for ET_REL inputs with .modinfo/.gnu.linkonce.this_module; --module-versions must list every module once with its version.",
+         "Trusted: the kernel-module reference set is the --partial run with the modules named in lkm_config.json (see notes/C22.md).",
+         "DESIGN.md §3 C22"),
+ "C23": ("metamorphic testing: the same command line executed repeatedly in fresh processes (fresh hash seeds) on generated inputs biased to hash-order-sensitive shapes; oracle = byte equality of stdout",
+         "Inputs with several non-entry blocks shared between functions, several sinks per source and many extern symbols are analysed k times (6 quick / 14 thorough) with all checks, JSON and plain output; all outputs must be byte-identical. Hash seeds cannot be chosen, only re-drawn: a dependence showing with probability p per run is missed with probability (1-p)^(k-1) per input.",
+         "Trusted: nothing beyond process isolation; schedules/hash seeds are sampled, not controlled. Details: notes/C23.md.",
+         "DESIGN.md §3 C23"),
 }
 
 NOT_APPLICABLE = {}
